@@ -364,20 +364,29 @@ class QueryParser(object):
         if not isinstance(text, text_type):
             text = text.decode("latin1")
 
-        nodes = self.process(text, debug=debug)
-        if debug:
-            print_debug(debug, "Syntax tree: %r" % nodes)
-
-        q = nodes.query(self)
-        if not q:
-            q = query.NullQuery
-        if debug:
-            print_debug(debug, "Pre-normalized query: %r" % q)
-
-        if normalize:
-            q = q.normalize()
+        try:
+            nodes = self.process(text, debug=debug)
             if debug:
-                print_debug(debug, "Normalized query: %r" % q)
+                print_debug(debug, "Syntax tree: %r" % nodes)
+
+            q = nodes.query(self)
+            if not q:
+                q = query.NullQuery
+            if debug:
+                print_debug(debug, "Pre-normalized query: %r" % q)
+
+            if normalize:
+                q = q.normalize()
+                if debug:
+                    print_debug(debug, "Normalized query: %r" % q)
+        except RuntimeError:
+            # Text nested deeper than the interpreter can follow (thousands of
+            # parentheses or prefix operators): a parse error like any other,
+            # not a crash of the caller
+            e = sys.exc_info()[1]
+            if "recursion" not in str(e):
+                raise
+            raise QueryParserError("Expression is nested too deeply")
         return q
 
     def parse_(self, text, normalize=True):
